@@ -653,19 +653,20 @@ func runHot(c HotCase) error {
 	return nil
 }
 
-func drawHot(rt *rapid.T, procs int, itersScale int) HotCase {
-	kinds := []string{"rating", "rating", "parse", "parse", "vector", "scores", "get"}
-	c := HotCase{Kind: kinds[rapid.IntRange(0, len(kinds)-1).Draw(rt, "kind")], Ver: gen.Version(rt), Procs: procs, G: rapid.IntRange(2, 16).Draw(rt, "goroutines")}
-	n := rapid.IntRange(2, 6).Draw(rt, "nargs")
+func drawHot(rt *rapid.T, kind string, ver int, procs int, itersScale int) HotCase {
+	c := HotCase{Kind: kind, Ver: ver, Procs: procs, G: rapid.IntRange(2, 16).Draw(rt, "goroutines")}
+	n := rapid.IntRange(3, 6).Draw(rt, "nargs")
 	switch c.Kind {
 	case "rating":
-		if c.Ver == 0 {
-			c.Ver = rapid.IntRange(1, 3).Draw(rt, "ratingver")
+		// arguments from different bands of the scale (and outside it), so that a mixed-up result is visible
+		// one argument from every band of the scale (and one on each side of it), so that a mixed-up result is visible
+		for _, b := range [][2]int{{0, 0}, {1, 39}, {40, 69}, {70, 89}, {90, 100}, {-3, -1}, {101, 103}} {
+			c.Xs = append(c.Xs, math.Float64bits(float64(rapid.IntRange(b[0], b[1]).Draw(rt, "k"))/10))
 		}
-		for i := 0; i < n; i++ {
-			c.Xs = append(c.Xs, math.Float64bits(float64(rapid.IntRange(-3, 103).Draw(rt, "k"))/10))
+		c.Iters = 1500000 * itersScale // cheap calls: a lost update needs millions of them
+		if c.G < 8 {
+			c.G += 8
 		}
-		c.Iters = 150000 * itersScale
 	case "parse":
 		for i := 0; i < n; i++ {
 			if rapid.IntRange(0, 3).Draw(rt, "bad") == 0 {
@@ -789,37 +790,51 @@ func TestC14(t *testing.T) {
 			return w
 		}, check)
 	}
-	// (e) hot loops
-	nh := env.Scale(16, 200)
-	if env.Shards > 1 {
-		nh = env.Scale(25, 150)
+	// (e) hot loops: every (function, version) pair at two GOMAXPROCS values
+	type hcombo struct {
+		kind string
+		ver  int
 	}
-	for _, procs := range []int{2, 16} {
-		procs := procs
-		if h.replaying() && procs != 2 {
-			continue
+	var hcombos []hcombo
+	for _, k := range []string{"parse", "vector", "scores", "get"} {
+		for v := 0; v < 4; v++ {
+			hcombos = append(hcombos, hcombo{k, v})
 		}
-		check := func(c HotCase) error {
-			var err error
-			seq++
-			ok := h.t.Run(fmt.Sprintf("hot%d", seq), func(st *testing.T) { err = runHot(c) })
-			if err != nil {
-				return err
+	}
+	hcombos = append(hcombos, hcombo{"rating", 1}, hcombo{"rating", 2}, hcombo{"rating", 3})
+	nh := env.Scale(1, 10)
+	if env.Shards > 1 {
+		nh = env.Scale(1, 4)
+	}
+	for _, hc := range hcombos {
+		hc := hc
+		for _, procs := range []int{2, 16} {
+			procs := procs
+			if h.replaying() && (procs != 2 || hc != hcombos[0]) {
+				continue
 			}
-			if !ok {
-				return fmt.Errorf("the race detector reported a data race in hot loop %s (v%s, GOMAXPROCS=%d, %d goroutines)", c.Kind, spec.Versions[c.Ver%4].Name, c.Procs, c.G)
+			check := func(c HotCase) error {
+				var err error
+				seq++
+				ok := h.t.Run(fmt.Sprintf("hot%d", seq), func(st *testing.T) { err = runHot(c) })
+				if err != nil {
+					return err
+				}
+				if !ok {
+					return fmt.Errorf("the race detector reported a data race in hot loop %s (v%s, GOMAXPROCS=%d, %d goroutines)", c.Kind, spec.Versions[c.Ver%4].Name, c.Procs, c.G)
+				}
+				return nil
 			}
-			return nil
+			Rapid(h, "hot-loop", nh, func(rt *rapid.T) HotCase {
+				c := drawHot(rt, hc.kind, hc.ver, procs, 1)
+				h.R.Case(fmt.Sprintf("hot loop GOMAXPROCS=%d %s v%s", procs, c.Kind, spec.Versions[c.Ver].Name), fmt.Sprintf("HOT%v", c))
+				h.R.Count("hot-loop calls executed concurrently", int64(c.G*c.Iters))
+				if h.R.WantSample("hot-" + c.Kind) {
+					h.R.Sample("hot-"+c.Kind, c)
+				}
+				return c
+			}, check)
 		}
-		Rapid(h, "hot-loop", nh, func(rt *rapid.T) HotCase {
-			c := drawHot(rt, procs, 1)
-			h.R.Case(fmt.Sprintf("hot loop GOMAXPROCS=%d %s v%s", procs, c.Kind, spec.Versions[c.Ver].Name), fmt.Sprintf("HOT%v", c))
-			h.R.Count("hot-loop calls executed concurrently", int64(c.G*c.Iters))
-			if h.R.WantSample("hot-" + c.Kind) {
-				h.R.Sample("hot-"+c.Kind, c)
-			}
-			return c
-		}, check)
 	}
 	// (f) cold starts: every (function, version) combination gets its own fresh processes
 	type combo struct {
